@@ -1262,3 +1262,24 @@ class NpProxy:
             for j in range(m or n):
                 a[i, j] = tm.ONE if i == j else tm.ZERO
         return a
+
+
+def _np_digitize(x, bins, right=False):
+    """np.digitize for ONE symbolic abscissa and monotonically increasing symbolic bins: the index is decided edge by edge
+    (each comparison forks the path); returns a python int"""
+    if right:
+        raise NotModelled("np.digitize(right=True)")
+    xs = _arr(x)
+    if xs.size != 1:
+        raise NotModelled("np.digitize of a symbolic array with more than one element")
+    xv = tm._l(xs.reshape(-1)[0])
+    n = 0
+    for b in list(bins):
+        if bool(tm.le(tm._l(b), xv)):
+            n += 1
+        else:
+            break
+    return n
+
+
+NpProxy.digitize = staticmethod(_np_digitize)
